@@ -35,6 +35,8 @@ def execute(case):
                 continue
             for how in ("tuple", "object"):
                 runs["%s_%s" % (be, how)] = lf.run_views(op, inp, how)
+                if c["bad"] == "none" and be == "core":     # the same conversions in sequence on ONE tuple / ONE object
+                    runs["%s_%s_seq" % (be, how)] = lf.run_views(op, inp, how, shared=True)
             if c["bad"] != "none":          # invalid family: the conversion functions on the raw tuple, too
                 runs["%s_convert" % be] = lf.run_convert(op, inp)
     finally:
